@@ -48,8 +48,11 @@ class CopyPropagate:
                 src = def_use.find_def_from_use(d.site.expr)
                 if def_use.successors[src]:
                     continue
-                if len(def_use.uses[d]) > 0:
-                    # optimization: only propagate if there is at least one use
+                if any(isinstance(u, Var) for u in def_use.uses[d]):
+                    # only propagate if there is at least one use to rewrite: the
+                    # target of an indexed assignment (`x[i] = e`) is a use that
+                    # substitution leaves alone, and reporting a change for it
+                    # alone keeps `simplify` iterating forever
                     prop[d] = d.site.expr
 
         if not prop:
